@@ -602,12 +602,26 @@ fn gen_equality(rng: &mut Rng, n: usize, thorough: bool, em: &mut Emitter) {
             emit(em, format!("req {} {} {} {}", c, t, a, b));
         }
     }
+    // … and the case-only witness for every name-bearing row under the other classes
+    for &(c0, t, k) in &names {
+        for c in [1u16, 3, 4, 254, 4660] {
+            if c == c0 { continue; }
+            let base = valid(rng, k);
+            let mut up = base.clone();
+            for b in up.iter_mut() { if b.is_ascii_alphabetic() { *b ^= 0x20; } }
+            emit(em, format!("req {} {} {} {}", c, t, hex(&base), hex(&up)));
+            emit(em, format!("rset {} {} {}", c, t, list(vec![hex(&base), hex(&up), hex(&base)])));
+        }
+    }
     for _ in 0..n {
         let (c, t, k) = match rng.below(10) {
             0..=6 => *rng.pick(&names),
             7 => *rng.pick(&[ROWS[0], ROWS[15], ROWS[9], ROWS[12]]), // A, TXT, NULL, HINFO
             _ => row(rng),
         };
+        // the same octets under *another* class: rows that are class-specific (SRV and A are
+        // name-bearing in one class only) must fall back to octet-wise equality elsewhere
+        let c = if rng.chance(1, 6) { *rng.pick(&[1u16, 3, 4, 254, 4660]) } else { c };
         let p = pool(rng, k);
         let a = rng.pick(&p).clone();
         let b = rng.pick(&p).clone();
